@@ -233,16 +233,16 @@ structure InputEnv (c : Ctx) (e : Env) (U : TypeId → Prop) : Prop where
     C01.notPrim n ∧ ∃ q, C01.notPrim q ∧ e.find n = some (.alias n false (.path q)) ∧ e.find q = none ∧
       e.externs.find? (·.1 == q) = some (q, .path "String")
   enums : ∀ k en, U (.enum k) → c.s.enums[k]? = some en → C01.notPrim en.name ∧
-    (e.find en.name = some (enumItem c en) ∨
+    ((e.find en.name = some (enumItem c en) ∧ (en.variants.map (variantIdent c)).Nodup) ∨
      (e.find en.name = none ∧ e.externs.find? (·.1 == en.name) = some (en.name, .path "String")))
-  enumIdents : ∀ k en, U (.enum k) → c.s.enums[k]? = some en → (en.variants.map (variantIdent c)).Nodup
   inputs : ∀ k i, U (.input k) → c.s.inputs[k]? = some i →
     C01.notPrim i.name ∧ e.find i.name = some (inputItemSpec c i)
   closed : ∀ k i, U (.input k) → c.s.inputs[k]? = some i → ∀ p ∈ i.fields,
     U p.2.id ∧ C02.Relevant p.2.id ∧ wf (gty p.2) = true ∧ (i.isOneOf = true → isNN (gty p.2) = false)
   fieldNames : ∀ k i, U (.input k) → c.s.inputs[k]? = some i → (i.fields.map (·.1)).Nodup
   members : ∀ k i, U (.input k) → c.s.inputs[k]? = some i →
-    (i.fields.map (fun p => (inputField c p).rust)).Nodup ∧ (i.fields.map (fun p => (inputVariant c p).name)).Nodup
+    (i.isOneOf = false → (i.fields.map (fun p => (inputField c p).rust)).Nodup) ∧
+    (i.isOneOf = true → (i.fields.map (fun p => (inputVariant c p).name)).Nodup)
 
 end C04S
 end GqlVerif
